@@ -412,7 +412,7 @@ def run(ck):
     cov = {"evaluations": 0, "distinct_nontrivial": 0}
     if model_ok:
         m_f = ck.model(f_lines)
-        i_f = ck.impl(f_lines)
+        i_f = ck.impl(f_lines, timeout=900)
         r_idx, r_lines = [], []
         dist = {"ok": 0, "err": {}, "instructions": 0, "max_depth_files": 0, "inlined": 0}
         nontriv = set()
@@ -456,8 +456,8 @@ def run(ck):
                         "theorems": ["C14_flat", "C14_paste", "C14_prov", "C14_fail"],
                         "replay_cmd": "printf '%%s\\n' '<wire>' | .cache/cargo-target/release/c14   (and | ocaml/bin/c14_model)"})
         # second pass: run the file vs. run the text inlined by the extracted model
-        i_r = ck.impl(r_lines) if r_lines else []
-        run_stats = {"runs": len(r_lines), "ok": 0, "err": 0, "boom_positions_checked": 0, "emitted": 0}
+        i_r = ck.impl(r_lines, timeout=900) if r_lines else []
+        run_stats = {"runs": len(r_lines), "ok": 0, "err": 0, "boom_positions_checked": 0, "emitted": 0, "timeout_both": 0}
         for k, out in zip(r_idx, i_r):
             g, main = cases[k]
             parts = out.split("\t")
@@ -469,6 +469,9 @@ def run(ck):
                 pr = parse_result(m_f[k].split("\t")[0])
                 if len(a) != 4 or len(b) != 4:
                     bad = "run output malformed"
+                elif a[0] == "TIMEOUT" and b[0] == "TIMEOUT":
+                    run_stats["timeout_both"] += 1      # a generated script that loops: inconclusive, counted
+                    continue
                 elif a[0].split(" ")[:2] != b[0].split(" ")[:2] or a[1] != b[1] or a[2] != b[2]:
                     bad = "run_script_file and run_script(inlined text) behave differently"
                 else:
@@ -522,6 +525,7 @@ def run(ck):
             "samples": [{"main": cases[j][1].replace(cases[j][0].t.root, "<root>"),
                          "files": {p: c for p, c in list(cases[j][0].t.files.items())[:4]}} for j in (0, 1)],
             "distribution": dist,
+            "dropped_cyclic_by_assertion": dropped_cyclic,
         }
     else:
         cov = {"evaluations": 0, "distinct_nontrivial": 0, "rule": "model did not build", "samples": []}
